@@ -14,7 +14,7 @@ ASSUMPTIONS = ["rich is not installed on the 3.7-3.10 interpreters, so the plain
 TIMEOUT = {"quick": 1200, "thorough": 7200}
 
 FLAGS = ["--json", "--no-normalize", "--dis", "--dis-after", "--source"]
-MODULES = ["colorsys", "keyword", "this", "json.scanner", "bisect", "sched", "json", "json.tool", "email.mime.text", "xml.dom", "__future__", "antigravity"]
+MODULES = ["__hello__", "c16_sourceless_mod", "colorsys", "keyword", "this", "json.scanner", "bisect", "sched", "json", "json.tool", "email.mime.text", "xml.dom", "__future__", "antigravity"]
 PROGRAMS = [
     "x = 1\n", "", "\n", "a", "def f(a, *b, c=1, **d):\n    'doc'\n    return a\n", "class A:\n    def m(self): return __class__\n",
     "f(\n1)\n", "x = [0.0, -0.0, 1e999, 1e999-1e999, 2**70, 1j, b'a', ..., None, (1, (2.0, True))]\n",
@@ -64,6 +64,9 @@ def invocations(seed, n, pyver):
     # every single flag and the empty set on a fixed program, then random subsets x programs x source options
     for fl in [[]] + [[f] for f in FLAGS] + [["--dis", "--dis-after"], ["--json", "--no-normalize"], FLAGS]:
         out.append({"kind": "single", "via": "-c", "program": PROGRAMS[4], "flags": fl})
+    for mname in ("__hello__", "c16_sourceless_mod"):
+        for fl in ([], ["--json"], ["--no-normalize", "--json", "--dis", "--dis-after"]):
+            out.append({"kind": "single", "via": "-m", "module": mname, "flags": fl})
     import base64
     import c16_programs
     for k, raw in enumerate(c16_programs.RAW_FILES):
@@ -110,6 +113,15 @@ def run(shard):
     ADDR = re.compile(r"0x[0-9a-fA-F]+")
     tmpdir = tempfile.mkdtemp(prefix="c16-")
     env = dict(os.environ)
+    # a module that only exists as a .pyc file (code but no source text), importable by the CLI subprocess and by this worker
+    import py_compile
+    srcless = os.path.join(tmpdir, "c16_sourceless_mod.py")
+    with open(srcless, "w") as f:
+        f.write("def f(a, *b, k=1):\n    'doc'\n    return [i for i in b]\nx = f(1)\n")
+    py_compile.compile(srcless, cfile=os.path.join(tmpdir, "c16_sourceless_mod.pyc"), doraise=True)
+    os.remove(srcless)
+    env["PYTHONPATH"] = tmpdir + os.pathsep + env.get("PYTHONPATH", "")
+    sys.path.insert(0, tmpdir)
     launcher = "import sys; from code_data._cli import main; main()"
 
     def dis_text(code):
